@@ -54,10 +54,12 @@ Section Step.
   (* width of the window advertised last, counted from RCV.NXT (model values only, no ghost) *)
   Definition adv_width (s : socket) : Z := seq_sdiff (tcp_window_end s) (tcp_window_start s).
 
-  (* nothing at or beyond the advertised right edge is written into the ring *)
+  (* nothing at or beyond the advertised right edge is written into the ring: the storage cell
+     of every logical index at or beyond it (positions computed with the read pointer before the
+     segment) holds the same octet afterwards *)
   Definition beyond_untouched (s' s : socket) : Prop :=
     forall i, rb_len (s_rx_buffer s) + adv_width s <= i < rb_cap (s_rx_buffer s) ->
-              rb_cell (s_rx_buffer s') i = rb_cell (s_rx_buffer s) i.
+              znth (rb_store (s_rx_buffer s')) (rb_get_idx (s_rx_buffer s) i) = rb_cell (s_rx_buffer s) i.
 
   (* --- one segment on a synchronised socket --- *)
   Theorem process_synced have irs c s cx ip r s' rep tags :
@@ -135,7 +137,8 @@ Section Step.
     { destruct Hf2 as (_ & ->). unfold synced_state. destruct (s_state s); tauto. }
     pose proof (transition_synced cx s2 ip r ctl al aof p3 Hsy2 Hp3) as Htr.
     destruct p3 as [t3 s3|t3 s3 rep3].
-    2:{ inversion H; subst. destruct Htr as [Hsa | (He & -> & Hstate)].
+    2:{ inversion H; subst s' rep tags; clear H.
+        destruct Htr as [Hsa | [(He & -> & Hstate) | (Es3 & -> & Hsr)]].
         - apply Hret. destruct Hsa as (Hst & Hv & Hrp). destruct Hf2 as (He2 & Hst2).
           split; [congruence|]. split; [|exact Hrp].
           destruct Hv as [Hv|Hv]; [left; eapply rxv_eq_trans; eassumption
@@ -144,15 +147,20 @@ Section Step.
           split; [|split; [intros i _; destruct He' as (_ & -> & _); reflexivity
                           | split; [intros Hf; left; destruct He' as (_ & _ & E & _); congruence
                                    | unfold wsq, finz; destruct He' as (_ & E2 & E3 & _); rewrite E2, E3; lia]]].
-          destruct Hstate as [Hcl | (Hli & Hsr)].
-          + left. eapply rx_synced_mono; [exact Hmono|].
-            eapply rx_synced_view; [exact He' | unfold st_ok; rewrite Hcl; exact I | exact Hinv].
-          + destruct Hf2 as (_ & Hst2). rewrite Hst2 in Hsr. unfold st_ok in Hsto. rewrite Hsr in Hsto.
-            destruct Hsto as (Hl0 & Ha0 & Hf0 & Hc00).
-            right. split; [|split; [exact Hli | split; [reflexivity | split; [exact Hc00 | split; assumption]]]].
-            destruct He' as (E1 & E2 & E3 & E4 & E5 & E6 & E7).
-            unfold rx_unsynced, misc_ok, lwb. rewrite E1, E2, E3, E6, E7, Hli.
-            split; [exact Hwf|]. repeat split; try assumption. }
+          left. eapply rx_synced_mono; [exact Hmono|].
+          eapply rx_synced_view; [exact He' | unfold st_ok; rewrite Hstate; exact I | exact Hinv].
+        - (* RST in SYN-RECEIVED of a listener: pristine LISTEN *)
+          destruct Hf2 as ((U1 & U2 & U3 & _) & Hst2). rewrite Hst2 in Hsr.
+          unfold st_ok in Hsto. rewrite Hsr in Hsto. destruct Hsto as (Hl0 & Ha0 & Hf0 & Hc00).
+          destruct (relisten_unsynced s2 (s_listen_endpoint s2) ltac:(rewrite U2; exact Hwf)
+                      ltac:(rewrite U2; exact Hcap)) as (Hun & Hstore & Hli).
+          rewrite <- Es3 in Hun, Hstore, Hli. clear Es3.
+          split; [exact I|]. split; [|split; [|split]].
+          + right. split; [exact Hun|]. split; [exact Hli|].
+            split; [reflexivity | split; [exact Hc00 | split; assumption]].
+          + intros i _. rewrite Hstore, U2. reflexivity.
+          + intros Hf. destruct Hun as (_ & _ & _ & _ & E & _). congruence.
+          + unfold wsq, finz. destruct Hun as (_ & _ & E1 & _ & E2 & _). rewrite E1, E2, Hl0, Hf0. lia. }
     destruct Htr as (Hats & Htr).
     (* the phases after the table keep the view *)
     apply obind_ok_inv in H. destruct H as ((s4 & iwu) & Hp4 & H).
@@ -208,7 +216,7 @@ Section Step.
       assert (0 < n) by (unfold trim_len in Hpl; lia).
       specialize (HFseg ltac:(lia) ltac:(unfold trim_len in Hpl; lia) f Hf). subst off. rewrite Hpl. unfold trim_off, trim_len. lia. }
     specialize (Hps HFp Hp8).
-    destruct Hps as (s8' & rep8' & t8' & Heq & P1 & P2 & P3 & P4 & P5 & P6 & P7 & P8 & P9 & P10 & P11 & P12).
+    destruct Hps as (s8' & rep8' & t8' & Heq & P1 & P2 & P3 & P4 & P5 & P5r & P6 & P7 & P8 & P9 & P10 & P11 & P12).
     inversion Heq; subst s8' rep8' t8'; clear Heq.
     split; [exact P8|].
     assert (Hfinfrom : s_rx_fin_received s8 = true -> s_rx_fin_received s = true \/ r_control r = CFin).
@@ -227,7 +235,7 @@ Section Step.
         { unfold adv_width. rewrite Hws, Hwe. rewrite seq_sdiff_norm; unfold p30 in *; lia. }
         rewrite HadvW in Hi.
         assert (off + l_len payload <= W) by (subst off; rewrite Hpl; unfold trim_off, trim_len; lia).
-        apply P12; lia. }
+        rewrite <- P12 by lia. unfold rb_cell, rb_get_idx. rewrite P5, P5r. reflexivity. }
     cut (rx_synced S F (have_seg have c s r) irs c s8 /\ wsq c s <= wsq c s8).
     { intros (X1 & X2). split; [left; exact X1 | exact X2]. }
     apply and_comm. split.
